@@ -579,15 +579,19 @@ def datatype_sequences(res, rng, n):
         res.case(("dt_seq", cls.__name__, tuple(m for _, _, m in ops)), True)
         res.count("sequence:datatype:" + cls.__name__)
     # bit array instances: construct (with / without value, any index) / unpack / next / reads in any order
-    for _ in range(max(20, n // 8)):
+    for seq_no in range(max(20, n // 8)):
         toks, obs = [], []
         x = None
-        for k in range(rng.randint(2, 9)):
+        # every fourth sequence is steered: sizes are read around moves of the cursor to and from the last bit
+        steered = ["new", "size", "next", "size", "next", "size", "unpack", "size", "pack"] if seq_no % 4 == 0 else None
+        for k in range(len(steered) if steered else rng.randint(2, 9)):
             r = rng.random()
+            if steered:
+                r = dict(new=0.0, unpack=0.2, next=0.5, value=0.7, size=0.8, pack=0.95)[steered[k]]
             try:
                 if k == 0 or r < 0.08:
                     v = rng.choice([None, None, True, False])
-                    i = rng.randrange(8)
+                    i = rng.choice([7, 7, rng.randrange(8)])
                     toks.append("new:%s:%d" % ("-" if v is None else int(v), i))
                     x = dt.BitArray(v, i)
                     o = "."
@@ -597,7 +601,7 @@ def datatype_sequences(res, rng, n):
                     x.unpack(buf)
                     o = "."
                 elif r < 0.6:
-                    i = rng.randrange(8)
+                    i = rng.choice([7, rng.randrange(8), rng.randrange(8)])
                     toks.append("next:%d" % i)
                     o = "n:%d" % x.next(i)
                 elif r < 0.75:
@@ -612,6 +616,18 @@ def datatype_sequences(res, rng, n):
             except Exception:  # noqa: BLE001
                 o = "!"
             obs.append(o)
+        # statement-level judgement: a bit field accounts for its byte exactly when it stands on the last bit
+        cur = None
+        for tok, o in zip(toks, obs):
+            w = tok.split(":")
+            if w[0] == "new":
+                cur = int(w[2])
+            elif w[0] == "next" and o != "!":
+                cur = int(w[1])
+            elif w[0] == "size" and o != "s:%d" % (1 if cur == 7 else 0):
+                res.fail("spec", dict(t="datatype_sequence", cls="BitArray", ops=toks), "s:%d" % (1 if cur == 7 else 0), o,
+                         "a bit array reports a size that is not that of its current position (the byte is consumed on bit 7 only)")
+                break
         reqs.append("t.seq bit " + " ".join(toks))
         seen.append(("BitArray", toks, obs))
         res.case(("bit_seq", tuple(toks)), True)
